@@ -311,5 +311,7 @@ Definition y_run (y : rdy) (ops : list yop) : rdy := fold_left y_step ops y.
 (** the stall: output queued, socket writable, and the loop will not run the writer *)
 Definition stalled (y : rdy) : bool := y_queued y && y_sock y && negb (y_event y && y_interest y).
 
-(** census entry: (file, function, arming calls, queueing sites) *)
-Definition census_row : Type := (string * string * nat * nat)%type.
+(** census entry: (file, function, arms WRITABLE?, queues output?) — booleans, so that
+    adding a second arming call to a function that already arms, or moving code
+    inside a function, does not change the census *)
+Definition census_row : Type := (string * string * bool * bool)%type.
